@@ -52,7 +52,8 @@ IsPerm(o) == /\ \A j \in Slots : IsUnit(o[j].v) /\ ~o[j].junk /\ ~o[j].half
 \* all sequences, with ONE permutation
 IsPermAll(o) == IsPerm(o[1]) /\ \A q \in 1..nq : \A j \in Slots : o[q][j].v = o[1][j].v /\ ~o[q][j].junk /\ ~o[q][j].half
 
-ProofAltered == prf # "honest"
+\* "reproved": a fresh proof made by the (dishonest) shuffler itself for the output it hands out
+ProofAltered == prf \notin {"honest", "reproved"}
 ParAltered   == par # "same"
 
 Must == IF ~IsPermAll(out) \/ ProofAltered \/ ParAltered THEN "rej"
@@ -125,6 +126,7 @@ Near(j, j2) == k <= 6 \/ j2 \in {1, k, (j % k) + 1}
 OutputFamilies ==
   \/ \E q \in 1..nq, j \in Slots :
          \/ Give(Adv("replaceX", j, q), Set1(out, q, j, Junk(out[q][j])), prf, par)     \* first component replaced
+         \/ Give(Adv("replaceY", j, q), Set1(out, q, j, Junk(out[q][j])), prf, par)     \* second component replaced
          \/ Give(Adv("replace", j, q),  Set1(out, q, j, Junk(Ct(Unit(1)))), prf, par)   \* fresh ciphertext of a foreign plaintext
          \/ Give(Adv("rerand", j, q),   Set1(out, q, j, [out[q][j] EXCEPT !.rr = TRUE]), prf, par)
          \/ Give(Adv("scal", j, q),     Set1(out, q, j, [out[q][j] EXCEPT !.v = MulV(2, @)]), prf, par)
@@ -154,8 +156,18 @@ ProofFamilies ==
   \/ Kind # "simple" /\ \E j \in Slots, c \in {1, 2} : Give(Adv("input", j, c), out, prf, "in")  \* verifier's input X_j / Y_j differs
   \/ Kind = "pair" /\ Give(Adv("detach", 0, 0), [q \in 1..nq |-> [j \in Slots |-> Junk(Ct(Unit(1)))]], "forged", par)
 
+\* biffle: "component tamper + best-effort prover". The dishonest mixer (it chose pi and knows every witness)
+\* replaces ONE component of its output - a = 1..4 for Xbar[1], Ybar[1], Xbar[2], Ybar[2] - and makes a FRESH proof
+\* with the library's own Rep/And/Or prover over the tampered points, for a predicate in which every statement it
+\* can still satisfy is kept and the one it cannot is (b = 0) proven with the stale witness anyway or (b = 1..3)
+\* replaced by a copy of the b-th other statement of the same branch (what a verifier with a mis-copied statement
+\* would check).
+TamperFamilies ==
+  Kind = "biffle" /\ \E c \in 1..4, h \in 0..3 :
+      LET j == (c + 1) \div 2 IN Give(Adv("comptamper", c, h), Set1(out, 1, j, Junk(out[1][j])), "reproved", par)
+
 \* simple shuffle: the prover itself lies about y (there is no separate output: X, Y travel inside the proof)
-Adversary == phase = "adv" /\ (OutputFamilies \/ SeqFamilies \/ ProofFamilies)
+Adversary == phase = "adv" /\ (OutputFamilies \/ SeqFamilies \/ ProofFamilies \/ TamperFamilies)
 
 Verify ==
   /\ phase = "verify"
@@ -178,7 +190,7 @@ HonestAccepted == Judged /\ adv.f \in {"none", "honestlib"} => Must = "acc"
 FamiliesBite == Judged /\ adv.f \notin {"none", "honestlib"} => Must # "acc"
 \* the classification the families were designed for
 Designed == Judged =>
-  /\ (adv.f \in {"replaceX", "replace", "dup", "sum", "scal", "swapX", "kshift", "seqperm", "detach"} => ~IsPermAll(out))
+  /\ (adv.f \in {"replaceX", "replaceY", "comptamper", "replace", "dup", "sum", "scal", "swapX", "kshift", "seqperm", "detach"} => ~IsPermAll(out))
   /\ (adv.f = "rerand" \/ (adv.f = "swapXY" /\ nq = 1) => Must = "free")
 
 Emit == (phase = "done") => PrintT(<<"TRACE", ToJson(hist)>>)
